@@ -123,7 +123,9 @@ class EFLRItem:
     def _compute_copy_number(self) -> int:
         """Compute copy number of this ELFRItem, i.e. how many other objects of the same type and name there are."""
 
-        items_with_the_same_name = filter(lambda o: o.name == self.name, self.parent.get_all_eflr_items())
+        # objects are identified by set type (not set name), origin, copy number, and name;
+        # so same-named items in other sets of the same type count as well
+        items_with_the_same_name = filter(lambda o: o.name == self.name, self.parent.get_all_eflr_items_of_same_type())
         return len(list(items_with_the_same_name)) - 1
 
     @classmethod
